@@ -146,3 +146,18 @@ func VxC09DurationBound() {
 	op := ast.TemporalOperator{Type: ast.DiamondMinus, Interval: ast.Interval{Start: ast.TemporalBound{Type: ast.DurationTemporalBound, Timestamp: 0}, End: tb}}
 	vxAssert(op.String() == "<-[0ms, "+txt+"]" || op.String() == "<-[0s, "+txt+"]" || op.String() == "<-[0d, "+txt+"]", "operator-prints-bounds")
 }
+
+// VxC10Unescape (C10, kernel scope): for every string body of N bytes that the lexer can
+// deliver (SHORT_STRING body language), Unescape returns a value or an error and never panics.
+func VxC10Unescape() {
+	n := vxParam("N", 3)
+	body := vxString("body", n)
+	if vxParam("UPREFIX", 0) == 1 {
+		body = "\\u{" + body // steer into the unicode escape: \u{ + n arbitrary bytes
+	}
+	vxAssume(vxShortStringBody(body))
+	vxReach("deliverable-body")
+	ast.Unescape(body, false)
+	ast.Unescape(body, true)
+	vxAssert(true, "returned-without-panic")
+}
